@@ -497,3 +497,50 @@ Proof.
   move=> H1 H2. rewrite /LN_S1 /LN_ll /LN_guard.
   case: Rle_dec => //; first lra. by rewrite any_nonpos_false.
 Qed.
+
+(* ------------------------------------------------------------------------------------------ *)
+(* "integrates to one": exp of the pointwise log-likelihood as a function of the measured      *)
+(* value is the documented density, whose interval masses are standard-normal masses and whose *)
+(* total mass is one                                                                            *)
+(* ------------------------------------------------------------------------------------------ *)
+
+Theorem G_interval_mass s m a b : 0 < s ->
+  is_RInt (fun y => exp (G_pw s m y)) a b (RInt phi ((a - m) / s) ((b - m) / s)).
+Proof.
+  move=> Hs. apply is_RInt_ext with (normal_pdf s m).
+  - move=> y _. by rewrite G_density.
+  - by apply normal_interval_mass.
+Qed.
+
+Theorem G_normalised s m : 0 < s ->
+  is_lim (fun b => RInt (fun y => exp (G_pw s m y)) (m - b) (m + b)) p_infty 1.
+Proof.
+  move=> Hs. apply is_lim_ext with (fun b => RInt (normal_pdf s m) (m - b) (m + b)).
+  - move=> b. apply RInt_ext => y _. by rewrite G_density.
+  - by apply normal_total_mass.
+Qed.
+
+Theorem CMG_interval_mass sb sr m a b : 0 < sb + sr * m ->
+  is_RInt (fun y => exp (CMG_pw sb sr m y)) a b
+          (RInt phi ((a - m) / (sb + sr * m)) ((b - m) / (sb + sr * m))).
+Proof.
+  move=> Hs. apply is_RInt_ext with (normal_pdf (sb + sr * m) m).
+  - move=> y _. by rewrite CMG_density.
+  - by apply normal_interval_mass.
+Qed.
+
+Theorem CMG_normalised sb sr m : 0 < sb + sr * m ->
+  is_lim (fun b => RInt (fun y => exp (CMG_pw sb sr m y)) (m - b) (m + b)) p_infty 1.
+Proof.
+  move=> Hs. apply is_lim_ext with (fun b => RInt (normal_pdf (sb + sr * m) m) (m - b) (m + b)).
+  - move=> b. apply RInt_ext => y _. by rewrite CMG_density.
+  - by apply normal_total_mass.
+Qed.
+
+Theorem MG_normalised sr m : 0 < sr * m ->
+  is_lim (fun b => RInt (fun y => exp (MG_pw sr m y)) (m - b) (m + b)) p_infty 1.
+Proof.
+  move=> Hs. apply is_lim_ext with (fun b => RInt (normal_pdf (sr * m) m) (m - b) (m + b)).
+  - move=> b. apply RInt_ext => y _. by rewrite MG_density.
+  - by apply normal_total_mass.
+Qed.
